@@ -28,9 +28,12 @@ LEVEL_TEXT = (
 )
 LEVEL_NOTE = (
     "Trusted: harness/c20_ref.py (model, RFC 3986 resolution), harness/reflink.py, simnet, refcodec. lt is not visible in lookups (RFC 9176 6.3), "
-    "so a lifetime changed by a rejected request is only seen at the next boundary crossing; instants within 0.5 s of a model boundary are not "
-    "sampled. Re-use of a freed location by a later registration is counted, not judged. 5.xx answers are counted and the model is "
-    "re-synchronised from the observation (the statement speaks about 4.xx). Acceptance is pinned by a fixed script only."
+    "so a lifetime changed by a rejected request is only seen at the next boundary crossing (when several rejected requests could explain it the "
+    "violation is filed under the first of ALT_ORDER and the witness lists all); instants within 0.5 s of a model boundary are not sampled. "
+    "Re-use of a freed location for a later registration of another (ep, d) is counted, not judged (JUDGE_LOCATION_REUSE). 5.xx answers are counted "
+    "and the model is re-synchronised from the observation (the statement speaks about 4.xx). Acceptance is pinned by a fixed script only. "
+    "Understood deviations (mechanism keys rejected-*/..., expiry/lifetime-set-by-rejected-*, lookup-res/links-not-resolved-against-base) "
+    "re-synchronise the model to the observed state so that the rest of the history is still judged; any other difference ends the history."
 )
 RULE = (
     "one case = one history of 5-40 steps over <=4 endpoint names x <=2 sectors from <=3 registrants (plus 9 fixed scripts in shard 0). "
